@@ -7,7 +7,7 @@ import sys
 
 from slimta.smtp.client import Client, LmtpClient
 
-CODES = {2: [250, 251, 220], 3: [354], 4: [450, 451, 421], 5: [550, 554, 500]}
+CODES = {1: [150], 2: [250, 251, 220], 3: [354], 4: [450, 451, 421], 5: [550, 554, 500]}
 
 
 class Starved(Exception):
@@ -25,6 +25,7 @@ class Peer(object):
         self.mode = 'cmd'
         self.acc = 0
         self.k = 0
+        self._data_unit = False
 
     def fileno(self):
         return 7
@@ -35,6 +36,8 @@ class Peer(object):
     def reply(self, cls, hello=False):
         self.k += 1
         code = self.rnd.choice(CODES[cls]) if not hello or cls != 2 else 250
+        if cls == 3 and not self._data_unit:
+            code = 350
         nl = self.rnd.randint(1, 3)
         lines = ['r%dx %s' % (self.k, self.rnd.choice(['ok', 'go ahead', '2.1.0 fine', '5.1.1 no', 'x-y z']))]
         for i in range(nl - 1):
@@ -69,7 +72,10 @@ class Peer(object):
                     if self.reply(self.choose('rcpt')) // 100 == 2:
                         self.acc += 1
                 elif verb == b'DATA':
-                    if self.reply(self.choose('data')) == 354:
+                    self._data_unit = True
+                    c_ = self.reply(self.choose('data'))
+                    self._data_unit = False
+                    if c_ == 354:
                         self.mode = 'data'
                 elif verb == b'RSET':
                     self.reply(2)
@@ -124,7 +130,7 @@ def run_scenario(lmtp, pipelining, calls, classes, segmode, seed):
 
     def script(unit):
         c = next(cit, None)
-        allowed = {'data': (3, 4, 5), 'content': (2, 4, 5)}.get(unit, (2, 4, 5))
+        allowed = {'data': (3, 4, 5), 'content': (2, 4, 5), 'rcpt': (1, 2, 3, 4, 5), 'mail': (2, 3, 4, 5)}.get(unit, (2, 4, 5))
         if c is None or c not in allowed:
             c = rnd.choice(allowed)
         return c
@@ -224,7 +230,7 @@ def main():
     for nr in (1, 2, 3):
         skeleton = ['hello', 'mail'] + ['rcpt'] * nr + ['data', 'send_data']
         units = 2 + nr + 1
-        for classes in itertools.product((2, 4, 5), (2, 4, 5), *([(2, 4, 5)] * nr + [(3, 5)])):
+        for classes in itertools.product((2, 4, 5), (2, 4, 5), *([(2, 3, 4, 5)] * nr + [(3, 5)])):
             for lmtp in (False, True):
                 for pipe in (False, True):
                     idx += 1
